@@ -494,21 +494,20 @@ class BaseParser:
                     field.attr_dependencies if as_attname else field.dependencies
                 )
 
-        if not options.ignore_required:
-            # if required field is ignored. we do not need to check for required fields
-            for key, field in self.fields.items():
-                name = field.attname if as_attname else field.name
-                if name in result:
-                    continue
-                if excluded_keys and name in excluded_keys:
-                    continue
-                unprovided_fields.add(name)
-                if field.is_required(options=options):
-                    context.handle_error(exc.AbsenceError(item=name))
-                    continue
-                default = field.get_default(options, defer=False)
-                if not unprovided(default):
-                    result[name] = default
+        # under ignore_required no field is required (is_required), but the defaults of unprovided fields still apply
+        for key, field in self.fields.items():
+            name = field.attname if as_attname else field.name
+            if name in result:
+                continue
+            if excluded_keys and name in excluded_keys:
+                continue
+            unprovided_fields.add(name)
+            if field.is_required(options=options):
+                context.handle_error(exc.AbsenceError(item=name))
+                continue
+            default = field.get_default(options, defer=False)
+            if not unprovided(default):
+                result[name] = default
 
         if dependencies:
             dependant = set(result)
